@@ -3,10 +3,10 @@
 (* both line endings and both settings of the trailing-newline option.  Checks the declarative  *)
 (* statements of C13, C16, C12 on every source and prints the expected result of every case      *)
 (* (output bytes, temp files, commands run, verdict) for the byte-level conformance harness.     *)
-EXTENDS PpEnv, Json, TLCExt, SequencesExt
+EXTENDS PpEnv, Json, TLCExt, SequencesExt, IOUtils
 
 CONSTANTS MaxLen,      \* sources have at most this many lines
-          First,       \* 0: only the empty source; k > 0: sources whose first line is Catalogue[k]
+          First,       \* 0: only the empty source; k > 0: sources whose first line is Catalogue[k]; a number above the catalogue length: the sources listed in the file $PP_EXTRA
           EmitCases
 
 Catalogue == <<
@@ -18,12 +18,14 @@ Catalogue == <<
    "TXTPP#tag A", "TXTPP#tag B", "TXTPP#tag AB",
    "-TXTPP#write q", "-TXTPP#write", "-", "-A", " r", "-TXTPP#run", "-TXTPP#temp bad.txtpp",
    "// TXTPP#temp t1", "// c", "//", "   d", "-TXTPP#", "TXTPP#runx", "-TXTPP#write  TXTPP#tag A", "TXTPP#include p4",
-   "// TXTPP#temp sub/t2", "TXTPP#include t1", "  TXTPP#tag A", "\t-TXTPP#write  q r " >>
+   "// TXTPP#temp sub/t2", "TXTPP#include t1", "  TXTPP#tag A", "\t-TXTPP#write  q r ", "-TXTPP#temp p2" >>
 NL == Len(Catalogue)
 
 VARIABLE src
 Seqs(n) == UNION {[1..k -> 1..NL] : k \in 0..n}
-Init == src \in (IF First = 0 THEN {<<>>} ELSE {<<First>> \o s : s \in Seqs(MaxLen - 1)})
+\* explicitly listed sources (one JSON array of catalogue indices per line): structured families beyond MaxLen
+Extra == IF First > NL THEN ToSet(ndJsonDeserialize(IOEnv.PP_EXTRA)) ELSE {}
+Init == src \in (IF First = 0 THEN {<<>>} ELSE IF First > NL THEN Extra ELSE {<<First>> \o s : s \in Seqs(MaxLen - 1)})
 Next == UNCHANGED src
 Spec == Init /\ [][Next]_src
 Lines == [i \in 1..Len(src) |-> Catalogue[src[i]]]
